@@ -1,2 +1,269 @@
-(* Model for C17 — to be written. Executable definitions only, no proofs. *)
-From WI Require Import Lib.Base Lib.Info.
+(* Model for C17.  Executable definitions only, no proofs.
+
+   Go code modelled:
+   * github.com/google/uuid v1.6.0 (third party, re-modelled and cross-checked by op `lib`/`parse`):
+       util.go   xvalues, xtob
+       uuid.go   Parse (lengths 32/36/38/45), String/encodeHex, Version
+       time.go   Time, UnixTime, ClockSequence ;  node.go NodeID ;  dce.go Domain, Domain.String, ID
+   * go1.23.5 standard library: strings.TrimSpace (+ unicode.IsSpace, utf8.DecodeRune /
+     DecodeLastRune), strings.EqualFold on a 9-byte prefix, time.Unix normalisation and
+     Format("2006-01-02 15:04:05.9999999") (Lib/Time.v)
+   * the repository: internal/file/identifier.go IsUUID, internal/file/parsers.go UUIDValue,
+     parseUUID, uuidV6Time.
+
+   The repairs made for C17 are switchable ([cfg]) so that the behaviour before each repair
+   stays available for the `_refuted` theorems; the running code corresponds to [fixed]. *)
+From WI Require Import Lib.Base Lib.Info Lib.Utf8 Lib.Strings Lib.Time.
+Open Scope N_scope.
+
+Record cfg := { fx_v6time : bool;     (* F18: v6 timestamp decoded locally (RFC 9562 5.6) *)
+                fx_max : bool;        (* F19: `case 15` instead of the unreachable `case 0xff` *)
+                fx_braces : bool;     (* F20: the 38-byte form must be {...} *)
+                fx_v8 : bool }.       (* F37: version 8 named *)
+Definition fixed : cfg := {| fx_v6time := true; fx_max := true; fx_braces := true; fx_v8 := true |}.
+Definition legacy : cfg := {| fx_v6time := false; fx_max := false; fx_braces := false; fx_v8 := false |}.
+
+(* ---------- uuid/util.go ---------- *)
+(* xvalues[c]: value of a hexadecimal digit, 255 otherwise (also for anything that is not a byte) *)
+Definition xval (c : N) : N :=
+  if (48 <=? c) && (c <=? 57) then c - 48
+  else if (65 <=? c) && (c <=? 70) then c - 55
+  else if (97 <=? c) && (c <=? 102) then c - 87
+  else 255.
+(* xtob: (b1<<4)|b2, ok iff both are digits *)
+Definition xtob (x1 x2 : N) : option N :=
+  let b1 := xval x1 in let b2 := xval x2 in
+  if (b1 =? 255) || (b2 =? 255) then None else Some (b1 * 16 + b2).
+
+(* the loops `uuid[i], ok = xtob(s[2i], s[2i+1])` over an even number of characters *)
+Fixpoint hex_decode (s : bytes) : option bytes :=
+  match s with
+  | [] => Some []
+  | x1 :: x2 :: r =>
+      match xtob x1 x2 with
+      | Some b => match hex_decode r with Some l => Some (b :: l) | None => None end
+      | None => None
+      end
+  | [_] => None
+  end.
+
+(* ---------- uuid.go Parse ---------- *)
+Definition hyphen : N := 45.
+(* the tail of Parse: s has at least 36 bytes; only s[0..35] are examined *)
+Definition dehyphen (s : bytes) : option bytes :=
+  if (nth 8 s 0 =? hyphen) && (nth 13 s 0 =? hyphen) && (nth 18 s 0 =? hyphen) && (nth 23 s 0 =? hyphen)
+  then Some (take 8 s ++ take 4 (drop 9 s) ++ take 4 (drop 14 s) ++ take 4 (drop 19 s) ++ take 12 (drop 24 s))
+  else None.
+Definition parse36 (s : bytes) : result bytes :=
+  match dehyphen s with
+  | Some h => match hex_decode h with Some u => Ok u | None => Err "invalid UUID format" end
+  | None => Err "invalid UUID format"
+  end.
+
+Definition urn_prefix : bytes := bs "urn:uuid:".
+(* strings.EqualFold(s[:9], "urn:uuid:"): a 9-byte string can only fold-match nine ASCII
+   letters/colons byte by byte (a non-ASCII byte makes fewer than nine runes or a RuneError) *)
+Definition fold_eq_ascii (a b : bytes) : bool := bytes_eqb (map to_lower_ascii a) (map to_lower_ascii b).
+
+Definition parse (s : bytes) : result bytes :=
+  let n := length s in
+  if Nat.eqb n 36 then parse36 s
+  else if Nat.eqb n 45 then
+    (if fold_eq_ascii (take 9 s) urn_prefix then parse36 (drop 9 s) else Err "invalid urn prefix")
+  else if Nat.eqb n 38 then parse36 (drop 1 s)       (* s = s[1:]; the last byte is never looked at *)
+  else if Nat.eqb n 32 then
+    match hex_decode s with Some u => Ok u | None => Err "invalid UUID format" end
+  else Err "invalid UUID length".
+
+(* ---------- strings.TrimSpace ---------- *)
+(* unicode.IsSpace *)
+Definition is_space_rune (r : N) : bool :=
+  if r <=? 255 then
+    ((9 <=? r) && (r <=? 13)) || (r =? 32) || (r =? 133) || (r =? 160)
+  else
+    (r =? 5760) || ((8192 <=? r) && (r <=? 8202)) || (r =? 8232) || (r =? 8233)
+    || (r =? 8239) || (r =? 8287) || (r =? 12288).
+
+(* TrimLeftFunc(s, IsSpace): decode forwards; an invalid byte is RuneError, which is no space *)
+Fixpoint trim_left_space (fuel : nat) (s : bytes) : bytes :=
+  match fuel with
+  | O => s
+  | S f =>
+      match s with
+      | [] => []
+      | _ =>
+          match decode_rune s with
+          | (true, r, sz) => if is_space_rune r then trim_left_space f (drop sz s) else s
+          | (false, _, _) => s
+          end
+      end
+  end.
+
+Definition rune_start (b : N) : bool := negb (N.land b 192 =? 128).
+
+(* utf8.DecodeLastRuneInString on the reversed string [rs]; Some size when the last rune is a
+   space, None otherwise (every failure path of DecodeLastRune yields (RuneError, 1)) *)
+Definition try_last (l : bytes) : option nat :=
+  match decode_rune l with
+  | (true, r, sz) => if Nat.eqb sz (length l) && is_space_rune r then Some sz else None
+  | (false, _, _) => None
+  end.
+Definition last_space (rs : bytes) : option nat :=
+  match rs with
+  | [] => None
+  | b :: r =>
+      if b <? 128 then (if is_space_rune b then Some 1%nat else None)
+      else match r with
+      | [] => None
+      | b1 :: r1 =>
+          if rune_start b1 then try_last [b1; b]
+          else match r1 with
+          | [] => None
+          | b2 :: r2 =>
+              if rune_start b2 then try_last [b2; b1; b]
+              else match r2 with
+              | [] => None
+              | b3 :: _ => if rune_start b3 then try_last [b3; b2; b1; b] else None
+              end
+          end
+      end
+  end.
+Fixpoint trim_right_space_rev (fuel : nat) (rs : bytes) : bytes :=
+  match fuel with
+  | O => rs
+  | S f => match last_space rs with
+           | Some sz => trim_right_space_rev f (drop sz rs)
+           | None => rs
+           end
+  end.
+Definition trim_space (s : bytes) : bytes :=
+  let l := trim_left_space (length s) s in
+  rev (trim_right_space_rev (length l) (rev l)).
+
+(* ---------- accessors of uuid.UUID (a [16]byte: here a list of 16 bytes) ---------- *)
+Definition sub (u : bytes) (i j : nat) : bytes := take (j - i) (drop i u).
+Definition version (u : bytes) : N := nth 6 u 0 / 16.                   (* uuid[6] >> 4 *)
+
+(* encodeHex / String(): lower-case canonical text *)
+Definition canon (u : bytes) : bytes :=
+  let h := hex_of false u in
+  take 8 h ++ [hyphen] ++ take 4 (drop 8 h) ++ [hyphen] ++ take 4 (drop 12 h) ++ [hyphen]
+  ++ take 4 (drop 16 h) ++ [hyphen] ++ drop 20 h.
+
+Definition nil_uuid : bytes := repeat 0 16.
+Definition max_uuid : bytes := repeat 255 16.
+
+(* int64(x) of a 64-bit pattern / wrap-around of int64 arithmetic *)
+Definition wrap64 (z : Z) : Z := ((z + 9223372036854775808) mod 18446744073709551616 - 9223372036854775808)%Z.
+
+Definition g1582ns100 : Z := 122192928000000000%Z.    (* time.go: (2440587 - 2299160) * 86400 * 10^7 *)
+
+(* time.go (uuid UUID) Time() *)
+Definition lib_time (u : bytes) : Z :=
+  let v := version u in
+  if v =? 6 then wrap64 (Z.of_N (be_to_N (sub u 0 8)))                   (* keeps the version nibble *)
+  else if v =? 7 then
+    wrap64 (Z.of_N ((N.shiftr (be_to_N (sub u 0 8)) 16 * 10000 + Z.to_N g1582ns100) mod 18446744073709551616))
+  else
+    Z.of_N (N.lor (N.lor (be_to_N (sub u 0 4)) (N.shiftl (be_to_N (sub u 4 6)) 32))
+                  (N.shiftl (N.land (be_to_N (sub u 6 8)) 4095) 48)).
+
+(* time.go (t Time) UnixTime(): Go's / and % truncate towards zero *)
+Definition lib_unix_time (t : Z) : Z * Z :=
+  let s := wrap64 (t - g1582ns100)%Z in
+  (Z.quot s 10000000, (Z.rem s 10000000 * 100)%Z).
+
+Definition clock_sequence (u : bytes) : N := N.land (be_to_N (sub u 8 10)) 16383.
+Definition node_id (u : bytes) : bytes := sub u 10 16.
+Definition dce_id (u : bytes) : N := be_to_N (sub u 0 4).
+Definition dce_domain (u : bytes) : N := nth 9 u 0.
+Definition domain_string (d : N) : bytes :=
+  if d =? 0 then bs "Person" else if d =? 1 then bs "Group" else if d =? 2 then bs "Org"
+  else bs "Domain" ++ dec_of_N d.
+
+(* parsers.go uuidV6Time (added by the repair of F18): time_high<<28 | time_mid<<12 | time_low *)
+Definition v6_time (u : bytes) : Z :=
+  Z.of_N (N.lor (N.lor (N.shiftl (be_to_N (sub u 0 4)) 28) (N.shiftl (be_to_N (sub u 4 6)) 12))
+                (N.land (be_to_N (sub u 6 8)) 4095)).
+
+(* time.Unix(t.UnixTime()).UTC().Format("2006-01-02 15:04:05.9999999") *)
+Definition time_utc_string (t : Z) : bytes :=
+  match lib_unix_time t with
+  | (sec, nsec) => match unix_norm sec nsec with (s, ns) => fmt_datetime_frac7_utc s ns end
+  end.
+
+Definition a_node (u : bytes) := (bs "Node id", hex_of false (node_id u)).
+Definition a_raw (t : Z) := (bs "Time (raw)", dec_of_Z t).
+Definition a_utc (t : Z) := (bs "Time (UTC)", time_utc_string t).
+Definition a_clock (u : bytes) := (bs "Clock sequence", dec_of_N (clock_sequence u)).
+
+(* parsers.go UUIDValue after a successful parse: the switch on u.Version() *)
+Definition describe_gen (c : cfg) (u : bytes) : info :=
+  let v := version u in
+  let unknown := leaf (bs "UUID (unknown type)") [] in
+  if v =? 0 then
+    (if bytes_eqb (canon u) (canon nil_uuid) then leaf (bs "UUID (Nil UUID)") [] else unknown)
+  else if v =? 1 then
+    let t := lib_time u in
+    leaf (bs "UUID v1 (Gregorian time)") [a_node u; a_raw t; a_utc t; a_clock u]
+  else if v =? 2 then
+    let t := lib_time u in
+    leaf (bs "UUID v2 (DCE)")
+      [(bs "Domain", domain_string (dce_domain u)); (bs "Id", dec_of_N (dce_id u)); a_node u; a_raw t; a_utc t; a_clock u]
+  else if v =? 3 then leaf (bs "UUID v3 (MD5)") []
+  else if v =? 4 then leaf (bs "UUID v4 (random)") []
+  else if v =? 5 then leaf (bs "UUID v5 (SHA1)") []
+  else if v =? 6 then
+    let t := if fx_v6time c then v6_time u else lib_time u in
+    leaf (bs "UUID v6 (reordered Gregorian time)") [a_raw t; a_utc t]
+  else if v =? 7 then
+    let t := lib_time u in
+    leaf (bs "UUID v7 (Unix epoch time)") [a_raw t; a_utc t]
+  else if (v =? 8) && fx_v8 c then leaf (bs "UUID v8 (custom)") []
+  else if (v =? 15) && fx_max c then
+    (if bytes_eqb (canon u) (canon max_uuid) then leaf (bs "UUID (Max UUID)") [] else unknown)
+  else unknown.         (* before F19: `case 0xff` never matches a 4-bit version *)
+
+(* parsers.go parseUUID: TrimSpace, brace check of the 38-byte form (F20), uuid.Parse *)
+Definition parse_text_gen (c : cfg) (data : bytes) : result bytes :=
+  let s := trim_space data in
+  if fx_braces c && Nat.eqb (length s) 38 && negb ((nth 0 s 0 =? 123) && (nth 37 s 0 =? 125))
+  then Err "invalid braces"
+  else parse s.
+
+Definition is_uuid_gen (c : cfg) (data : bytes) : bool := is_ok (parse_text_gen c data).
+Definition uuid_value_gen (c : cfg) (data : bytes) : result info :=
+  match parse_text_gen c data with
+  | Ok u => Ok (describe_gen c u)
+  | Err e => Err e
+  | Panic e => Panic e
+  end.
+
+(* the code as it is now (all four repairs are in the repository) *)
+Definition current : cfg := fixed.
+Definition describe := describe_gen fixed.
+Definition is_uuid := is_uuid_gen fixed.
+Definition uuid_value := uuid_value_gen fixed.
+
+(* ---------- vocabulary of the theorems (executable) ---------- *)
+Definition uuid_ok (u : bytes) : bool := Nat.eqb (length u) 16 && bytes_ok u.
+
+Fixpoint attr (name : bytes) (l : list (bytes * bytes)) : option bytes :=
+  match l with
+  | [] => None
+  | (k, v) :: r => if bytes_eqb k name then Some v else attr name r
+  end.
+Definition shown (name : string) (i : info) : option bytes := attr (bytes_of_string name) (i_attrs i).
+Arguments shown name%string i.
+
+(* the four textual forms, lower case; every other spelling differs from these by letter case only *)
+Inductive form_kind := Canonical | Braced | Urn | Bare.
+Definition form (f : form_kind) (u : bytes) : bytes :=
+  match f with
+  | Canonical => canon u
+  | Braced => [123] ++ canon u ++ [125]
+  | Urn => urn_prefix ++ canon u
+  | Bare => hex_of false u
+  end.
+(* t spells s up to ASCII letter case *)
+Definition same_up_to_case (t s : bytes) : Prop := map to_lower_ascii t = s.
